@@ -139,7 +139,9 @@ def prop(spec, rec):
     # a periodic recompute (max_recompute >= 2) is anchored at period 0 until the first event
     # re-anchors it, so the shift relation is only claimed there when the base run's first event
     # is in period 0
-    if k and (m.max_recompute in (None, 1) or min(m.event_times) == 0):
+    if spec["scheduler"].get("estimator"):
+        labels.add("sorted_scheduler_with_estimator")
+    if k and not spec["scheduler"].get("estimator") and (m.max_recompute in (None, 1) or min(m.event_times) == 0):
         hs = sc.build_sim(spec, shift=k)
         sc.run_sim(hs)
         s = by_station(hs)
@@ -252,6 +254,8 @@ def cases(draw):
     if kind == "scripted":
         sch = draw(sc.scripted_schedulers(stations))
         sch["probe"] = draw(st.integers(0, 3)) > 0
+        if draw(st.integers(0, 5)) == 0:
+            sch["max_recompute"] = None
         if sch.get("max_recompute") is None and draw(st.booleans()):
             sch["by_calls"] = True  # the n-th call returns the n-th entry (playback)
         if sch["probe"]:
@@ -264,6 +268,11 @@ def cases(draw):
         sch = draw(sc.sorted_schedulers(estimator=False, kinds=(kind,), mr=(1, 1, 1, 2, 3)))
         if not late and draw(st.booleans()):
             sch["sort"] = "edf"  # the order that reads the (outlived) estimates
+        if draw(st.integers(0, 2)) == 0:
+            # a rampdown estimator rides along: it pairs every session with the pilot and the
+            # rate of the previous period, whatever order stations and sessions are listed in
+            # (the time-shift relation is not claimed for it, DESIGN.md section 5)
+            sch["estimator"] = {"up": draw(st.sampled_from([1, 0.5, 2])), "down": draw(st.sampled_from([1, 0.5, 3])), "inc": draw(st.sampled_from([1, 0.5, 2]))}
     last = max(s["departure"] for s in sessions)
     recomputes = draw(st.lists(st.integers(0, last + 2), max_size=2))
     nev = len(sessions) + len(recomputes)
@@ -292,7 +301,7 @@ def subchecks(tier):
             prop,
             quick=600,
             thorough=30000,
-            floors={"two_axes_permuted": 0.3, "binding_constraint": 0.1, "shifted": 0.3, "sched_greedy": 0.089, "sched_rr": 0.092, "two_sessions_past_their_estimate": 0.1, "playback_scheduler": 0.005},
+            floors={"two_axes_permuted": 0.3, "binding_constraint": 0.1, "shifted": 0.2, "sched_greedy": 0.089, "sched_rr": 0.092, "two_sessions_past_their_estimate": 0.1, "playback_scheduler": 0.005, "sorted_scheduler_with_estimator": 0.06},
         )
     ]
 
